@@ -89,6 +89,7 @@ COMPONENT_SPECS = [
     {"kind": "rate", "capacity": 5},
     {"kind": "cert", "allow_fp": None, "prefix": "/private/"},
     {"kind": "cert", "allow_fp": "other", "prefix": "/private/"},
+    {"kind": "cert", "allow_fp": "appended"},
 ]
 
 
@@ -112,6 +113,8 @@ def build_component(spec, log, loop, client_fp, idx):
         fps = None
         if spec["allow_fp"] == "match":
             fps = {client_fp or "sha256:" + "0" * 64}
+        elif spec["allow_fp"] == "appended":
+            fps = {certs.identity("c04-appended", "ec").fingerprint}
         elif spec["allow_fp"] == "other":
             fps = {"sha256:" + "ab" * 32}
         inner = CertificateAuth(CertificateAuthConfig(path_rules=[CertificateAuthPathRule(prefix=spec.get("prefix", "/"), require_cert=True, allowed_fingerprints=fps)]))
@@ -138,6 +141,9 @@ def expected_of(spec, has_cert, fp_presented, req_path="/"):
             return "deny", b"60 "
         if spec["allow_fp"] == "other":
             return "deny", b"61 "
+        if spec["allow_fp"] == "appended":
+            # only the certificate whose key the client proved counts, never one it merely appended
+            return ("allow", None) if fp_presented == certs.identity("c04-appended", "ec").fingerprint else ("deny", b"61 ")
         return "allow", None
     if k == "rate":
         return ("deny", b"44 ") if spec["capacity"] == 0 else ("allow", None)
@@ -195,6 +201,9 @@ def run_conn(ctx, chain_specs, req, label, valid, schedule, has_cert, handler_ki
     loop = new_loop()
     audit = AuditMonitor.get()
     ident = certs.identity("c04-client", "ec") if has_cert else None
+    if has_cert == "chained":
+        # own (unlisted) leaf + an appended certificate: the chain must see the leaf's fingerprint
+        ident = certs.identity("c04-client-chained", "ec", extra_chain=[certs.identity("c04-appended", "ec").der])
     fp = ident.fingerprint if ident else None
     docroot = os.path.join(base, "doc")
     updir = os.path.join(base, "up_" + fstree.rand_name())
@@ -401,12 +410,15 @@ def run(ctx):
         # L2
         k = 0
         l2_chains = [c for c in all_chains if len(c) <= 2][:: ctx.pick(6, 1)]
+        l2_chains += [[COMPONENT_SPECS[15]], [COMPONENT_SPECS[9]], [COMPONENT_SPECS[0], COMPONENT_SPECS[15]]]
         for chain in l2_chains:
             for req, label, valid in REQUESTS[:5]:
                 for backend in ("pyopenssl", "stdlib"):
-                    for has_cert in (False, True):
+                    for has_cert in (False, True, "chained"):
+                        if has_cert == "chained" and backend != "pyopenssl":
+                            continue
                         k += 1
-                        if not ctx.mine(k) or (ctx.quick() and k % 3):
+                        if not ctx.mine(k) or (ctx.quick() and k % 3 and has_cert != "chained"):
                             continue
                         run_conn(ctx, chain, req, label, valid, "plain", has_cert, "spy", base, level="L2", backend=backend)
     finally:
